@@ -100,7 +100,7 @@ func (g *GuardRegion) Free() {
 func sumBytes(b []byte) uint64 {
 	h := uint64(1469598103934665603)
 	for _, x := range b {
-		h = (h ^ uint64(x)) * 1099511628211
+		h = hstep(h, uint64(x))
 	}
 	return h
 }
